@@ -1,6 +1,7 @@
 package props
 
 import (
+	"errors"
 	"fmt"
 
 	"github.com/intel/fastgo/verif/env"
@@ -146,7 +147,7 @@ func c14Harness(cfg *Cfg) func(x *mc.Exec) {
 						failedAt = i
 						callsAtFail = sink.Calls
 						x.NonTrivial()
-						if err != E {
+						if !errors.Is(err, E) { // the injected value itself or a wrapper that errors.Is recognises
 							x.Fail(fmt.Sprintf("C14 error-not-reported %s op=%s got=%s", tag, opName(op), errClass2(err, E)),
 								"%s [%s]: destination call %d failed with %v inside %s, which returned %v", k, r.hist, fk, E, opName(op), err)
 							return false
